@@ -49,6 +49,11 @@ type Agent struct {
 	finished  atomic.Bool
 
 	lock sync.RWMutex
+
+	// statusLock serializes "collect the status and append it to the
+	// history", so that the history lines are in the order in which they
+	// were collected and nothing follows the final status.
+	statusLock sync.Mutex
 }
 
 // Options is the configuration for the Agent.
@@ -163,8 +168,8 @@ func (a *Agent) Run(ctx context.Context) error {
 	defer close(done)
 	go func() {
 		for node := range done {
-			status := a.Status()
-			if err := a.historyStore.Write(status); err != nil {
+			status, err := a.writeStatus(false)
+			if err != nil {
 				a.logger.Error("Failed to write status", "error", err)
 			}
 			if err := a.reporter.reportStep(a.dag, status, node); err != nil {
@@ -177,10 +182,7 @@ func (a *Agent) Run(ctx context.Context) error {
 	// If the DAG is already finished, skip it.
 	go func() {
 		time.Sleep(waitForRunning)
-		if a.finished.Load() {
-			return
-		}
-		if err := a.historyStore.Write(a.Status()); err != nil {
+		if _, err := a.writeStatus(false); err != nil {
 			a.logger.Error("Status write failed", "error", err)
 		}
 	}()
@@ -190,9 +192,9 @@ func (a *Agent) Run(ctx context.Context) error {
 	lastErr := a.scheduler.Schedule(dagCtx, a.graph, done)
 
 	// Update the finished status to the history database.
-	finishedStatus := a.Status()
+	finishedStatus, err := a.writeStatus(true)
 	a.logger.Info("Workflow execution finished", "status", finishedStatus.Status)
-	if err := a.historyStore.Write(a.Status()); err != nil {
+	if err != nil {
 		a.logger.Error("Status write failed", "error", err)
 	}
 
@@ -202,11 +204,25 @@ func (a *Agent) Run(ctx context.Context) error {
 		a.logger.Error("Mail notification failed", "error", err)
 	}
 
-	// Mark the agent finished.
-	a.finished.Store(true)
-
 	// Return the last error on the DAG execution.
 	return lastErr
+}
+
+// writeStatus collects the current status and appends it to the history
+// while holding statusLock. Once the final status has been written, later
+// calls only collect the status and write nothing.
+func (a *Agent) writeStatus(final bool) (*model.Status, error) {
+	a.statusLock.Lock()
+	defer a.statusLock.Unlock()
+	status := a.Status()
+	if a.finished.Load() {
+		return status, nil
+	}
+	if final {
+		// Mark the agent finished.
+		a.finished.Store(true)
+	}
+	return status, a.historyStore.Write(status)
 }
 
 // Status collects the current running status of the DAG and returns it.
